@@ -51,6 +51,29 @@ def rule_init(rep):
                 r.check(not inside, f"{f.qual_in_module}: init call outside the loop",
                         f"{f.qual_in_module}:init-in-loop", "init call inside the main loop", node=n.ast)
         r.floor("_init_dynamic_disambiguation call sites", n_sites, 2)
+        # "once": no other call site anywhere in the package, and the prologue sites are not in a loop
+        for fn in repo.all_funcs():
+            if fn.module.name not in ("parglare.parser", "parglare.glr") or fn.name == "parse":
+                continue
+            for c in walk_no_nested(fn.node):
+                if isinstance(c, ast.Call) and is_self_attr(c.func, "_init_dynamic_disambiguation"):
+                    r.violation(
+                        f"{fn.qual_in_module}:extra-init-call",
+                        f"{fn.qual_in_module} calls _init_dynamic_disambiguation: the filter receives the all-None "
+                        "initialisation call again in the middle of a parse (a filter that keeps state forgets it)",
+                        node=c,
+                    )
+        for qual in ("parglare.parser.Parser.parse", "parglare.glr.GLRParser.parse"):
+            f, g = func_cfg(repo, qual)
+            for n, c in g.nodes_calling("_init_dynamic_disambiguation"):
+                in_cycle = n in g.reach([m for _, m in n.succ])
+                r.check(
+                    not in_cycle,
+                    f"{f.qual_in_module}: the init call is executed once per parse",
+                    f"{f.qual_in_module}:init-in-loop",
+                    f"{f.qual_in_module}: the init call lies on a cycle of parse(): the filter is re-initialised during the parse",
+                    node=n.ast,
+                )
         # decision table of _init_dynamic_disambiguation
         f = repo.func("parglare.parser.Parser._init_dynamic_disambiguation")
         ctx = f.params[1] if len(f.params) > 1 else None
@@ -342,7 +365,17 @@ def rule_lr_filter(rep):
         )
         a = loop.target.id
         ret = [s for s in f.body if isinstance(s, ast.Return)]
-        r.need(len(ret) == 1 and isinstance(ret[0].value, ast.Name), "single return of the kept list expected")
+        r.need(len(ret) == 1, "single return of the kept list expected")
+        if not isinstance(ret[0].value, ast.Name):
+            names = [n.id for n in ast.walk(ret[0].value) if isinstance(n, ast.Name)]
+            r.violation(
+                "_dynamic_disambiguation:result",
+                f"_dynamic_disambiguation returns `{unparse(ret[0].value)[:60]}` instead of the list of kept actions: "
+                + ("when the filter rejects every action the unfiltered list is returned and a rejected action is taken"
+                   if f.params[2] in names else "the result is not the kept list"),
+                node=ret[0],
+            )
+            return
         keep = ret[0].value.id
         target = rep.repo.func("parglare.parser.Parser._call_dynamic_filter")
         atoms = Atoms().enum("A.action", "kind", ("SHIFT", "REDUCE", "ACCEPT"))
